@@ -778,7 +778,12 @@ fn h2_zone(run: &mut H2Runner, rng: &mut Rng, z: &Zone, qnames: &[Name], cfg: &S
                             None => {
                                 let claim = call.claim();
                                 let in_z = call.s.iter().all(|&i| env.pool[i].origin == "zone");
+                                let ev_in_z = match claim {
+                                    Claim::Expansion { labels } => denial::expansion_evidence(&env.z, q, t, labels),
+                                    _ => true,
+                                };
                                 match denial::claim_truth(&env.z, q, t, &claim) {
+                                    _ if !ev_in_z => run.rep.count("h2/secure_expansion_of_wildcard_absent_from_zone"),
                                     Truth::True if in_z => {
                                         run.rep.count("h2/secure_entailed");
                                         run.rep.count(&format!("secure_true/{}", true_kind(&env.z, q, t, &claim)));
@@ -1464,7 +1469,7 @@ fn main() {
     rep.must("h2/secure", 1_000_000);
     rep.must("h2/bogus", 3_000_000);
     rep.must("h2/secure_entailed", 200_000);
-    for (k, min) in [("nxdomain", 50_000), ("nodata", 10_000), ("wildcard-expansion", 50_000), ("wildcard-nodata", 10_000), ("ent-nodata", 1_000), ("ds-nodata-at-cut", 100)] {
+    for (k, min) in [("nxdomain", 50_000), ("nodata", 10_000), ("wildcard-expansion", 2_000), ("wildcard-nodata", 10_000), ("ent-nodata", 1_000), ("ds-nodata-at-cut", 100)] {
         rep.must(&format!("secure_true/{k}"), min);
     }
     rep.must("h2/cut_case_calls", 100_000);
@@ -1485,12 +1490,12 @@ fn main() {
     {
         let mut rng = ctx.rng("h2");
         let mut run = H2Runner { rep: &mut rep, reported: Default::default() };
-        let n_small = ctx.budget(48, 3200);
+        let n_small = ctx.budget(48, 2400);
         for _ in 0..n_small {
             let z = gen_small_zone(&mut rng);
             h2_zone(&mut run, &mut rng, &z, &qnames, &SweepCfg { full: true, n_rand: 0, n_mix: 24 });
         }
-        let n_big = ctx.budget(160, 9600);
+        let n_big = ctx.budget(160, 7200);
         for _ in 0..n_big {
             let z = gen_big_zone(&mut rng);
             h2_zone(&mut run, &mut rng, &z, &qnames, &SweepCfg { full: false, n_rand: 24, n_mix: 12 });
@@ -1502,7 +1507,7 @@ fn main() {
         let mut rng = ctx.rng("e2e");
         let rt = tokio::runtime::Builder::new_current_thread().enable_time().build().expect("tokio runtime");
         let mut run = E2eRunner { rep: &mut rep, rt, reported: Default::default() };
-        let n = ctx.budget(320, 24_000);
+        let n = ctx.budget(320, 18_000);
         for i in 0..n {
             let z = if i % 3 == 0 { gen_small_zone(&mut rng) } else { refzone::gen_zone(&mut rng, &refzone::GenCfg::default()) };
             run.zone(&z, &qnames);
